@@ -211,9 +211,9 @@ def run_unit(unit, repo, verif, tier='quick', canary=True, workdir=None):
     res['functions'] = fb
     if js and 'verification-results' in js:
         vr = js['verification-results']
-        res['obligations'] = vr['verified'] + vr['errors']
-        res['discharged'] = vr['verified']
-        res['smt_ms'] = js['times-ms']['smt']['total'] if 'times-ms' in js else None
+        res['obligations'] = vr.get('verified', 0) + vr.get('errors', 0)
+        res['discharged'] = vr.get('verified', 0)
+        res['smt_ms'] = ((js.get('times-ms') or {}).get('smt') or {}).get('total')
     errs = parse_errors(r['stderr'], path)
     lines = text.split('\n')
     # solver instability guard: a function whose query ran out of resources in the whole-file run is re-verified alone (Z3's search depends on the
